@@ -222,6 +222,7 @@ def run(P, R, tier):
     R.floor('C16.d', 'derivation constructor sites', nd, 6)
     take_small_scope(P, R, ga)
     selection_shortcuts(P, R, ga)
+    common.forward(P, R, 'C01', ['C01.n'], 'C16.b', 'a selection answers intersects_bounds like its source: every row is decided by the exact kernel, not by a shortcut on the array\'s own total_bounds', floor=10)
     common.forward(P, R, 'C13', ['C13.a', 'C13.b', 'C13.i'], 'C16.b', 'bounds of a derived array are computed from exactly its own elements', floor=10)
     # C16.h: "wrapping in a Series" adds labels, nothing else: every quantity of a GeoSeries is the same-named quantity of its array, called with exactly the
     # wrapper's own arguments on every path (a fast path that consults the object's history -- a built index, a cached value -- makes the result depend on how
